@@ -81,11 +81,40 @@ PROBE_REFUND = {
 }
 
 
+# Channel identifier layouts (channel end -> N of channel-N), instantiated by the harness (NewWorld).  In a CROSSED layout the
+# two ends of every channel carry different identifiers (s on the clockwise end, l on the counter-clockwise one) and the OTHER
+# channel of each chain carries the counterparty's identifier, so a handler that mixes up source and destination identifiers
+# addresses an existing escrow account / voucher prefix of the same chain; with l = s followed by a digit the two identifiers of
+# every chain are textual prefixes of one another (channel-1 / channel-10).
+def crossed(s, l):
+    return {"AB.A": s, "AB.B": l, "BC.B": s, "BC.C": l, "CA.C": s, "CA.A": l}
+
+
+LAYOUTS = {
+    "P": crossed(1, 10),     # crossed, short id on the clockwise ends
+    "Q": crossed(10, 1),     # crossed, short id on the counter-clockwise ends
+    "R": crossed(2, 27),     # crossed, other digits
+    "N": crossed(3, 4),      # crossed, no prefix relation
+    "D": {"AB.A": 0, "AB.B": 1, "BC.B": 2, "BC.C": 3, "CA.C": 4, "CA.A": 5},   # all distinct, deterministic
+}
+# layout of the i-th random walk / case batch ("" = the world the schedule itself names: ibctesting's process-global unique
+# identifiers or channel-0/channel-1 on every chain)
+WALK_LAYOUTS = ["P", "", "Q", "", "R", "", "P", "D"]
+BATCH_LAYOUTS = ["", "", "P", "", "", "Q"]
+
+
+def with_layout(sched, name):
+    if name:
+        sched["chan"] = dict(LAYOUTS[name])
+        sched["layout"] = name
+    return sched
+
+
 def sizes(tier):
     if tier == "quick":
-        return dict(walks=16, depth=46, shards=12, max_hops=3,
+        return dict(walks=16, depth=46, shards=12, max_hops=3, tours=3, tour_layouts=["P"],
                     table=dict(MaxLen=4, BaseMaxLen=3, FullLen=2, Stride=7, BatchSize=8, Route2Every=4), variants=2)
-    return dict(walks=160, depth=64, shards=16, max_hops=4,
+    return dict(walks=160, depth=64, shards=16, max_hops=4, tours=9, tour_layouts=["P", "Q", "R", "N", "D"],
                 table=dict(MaxLen=5, BaseMaxLen=4, FullLen=3, Stride=6, BatchSize=10, Route2Every=3), variants=3)
 
 
@@ -193,7 +222,7 @@ def gen_walks(tier, seed, workdir):
     for ix, lst in enumerate(vk.pmap(one, list(range(nproc)), nproc)):
         for j, s in enumerate(lst):
             s["id"] = "walk-%d-%d-%d" % (seed, ix, j)
-            scheds.append(s)
+            scheds.append(with_layout(s, WALK_LAYOUTS[(len(scheds) + seed) % len(WALK_LAYOUTS)]))
     shutil.rmtree(d, ignore_errors=True)
     if len(scheds) < 3:
         raise vk.Infra("walk generation produced only %d schedules" % len(scheds))
@@ -220,8 +249,39 @@ def gen_cases(tier, seed, workdir):
     batches = json.load(open(os.path.join(outdir, "batches.json")))
     for i, b in enumerate(batches):
         b["id"] = "case%s-%d-%d" % ("kf" if b.get("kf") else "", seed, i)
+        with_layout(b, BATCH_LAYOUTS[(i + seed) % len(BATCH_LAYOUTS)])
     shutil.rmtree(d, ignore_errors=True)
     return batches, outdir, dict(paths=int(m.group(1)), escrow_pairs=int(m.group(2)), bases=int(m.group(3)), batches=int(m.group(4)))
+
+
+def gen_tours(tier, seed, workdir):
+    """Directed boundary schedules built by TLC by folding Step (Tour_ICS20.tla): twin escrows, failing twins, forwards over
+    the other end, failing forwards / returns, everything returned home -- executed in crossed / prefix-related identifier
+    layouts.  TLC refuses to emit a tour whose steps do not have the intended outcome in the specification."""
+    sz = sizes(tier)
+    d = vk.scratch_spec(SPEC_DIR)
+    outdir = os.path.join(workdir, "tours")
+    os.makedirs(outdir, exist_ok=True)
+    cfg = os.path.join(d, "Tour_ICS20.cfg")
+    consts = dict(OutDir=outdir, Rot=seed % 3, NTours=sz["tours"], Base="utour")
+    with open(cfg, "w") as f:
+        f.write("CONSTANTS\n" + "".join("  %s = %s\n" % (k, vk.tla_val(v)) for k, v in consts.items()))
+    rc, out = vk._tlc(["-workers", "1", "-config", cfg, "Tour_ICS20.tla"], d, 3600,
+                      extra_env={"JAVA_TOOL_OPTIONS": os.environ.get("JAVA_TOOL_OPTIONS", "") + " -Xss256m"})
+    m = re.search(r'<<"TOURS", (\d+), (\d+)>>', out)
+    if rc != 0 or not m or not os.path.exists(os.path.join(outdir, "tours.json")):
+        raise vk.Infra("tour generation (Tour_ICS20) failed:\n%s" % out[-3000:])
+    tours = json.load(open(os.path.join(outdir, "tours.json")))
+    shutil.rmtree(d, ignore_errors=True)
+    out_scheds = []
+    for li, lay in enumerate(sz["tour_layouts"]):
+        for i, t in enumerate(tours):
+            if li > 0 and tier == "quick" and i > 0:
+                continue
+            s = dict(t)
+            s["id"] = "tour-%d-%s%d" % (seed, lay, i)
+            out_scheds.append(with_layout(s, lay))
+    return out_scheds
 
 
 def _reuse_cases(tier, seed, workdir):
@@ -378,9 +438,13 @@ def coverage_of(trace_files):
 
 FLOORS = {
     "C30": ["Recv.mint1:ok", "Recv.mint2:ok", "Recv.release:ok", "Recv.errack:ok", "Timeout.escrow:ok", "Timeout.mint:ok",
-            "Ack.refund.", "Transfer.alias.", "Transfer.v2.", "Recv:noop", "Ack:noop", ".new:err"],
+            "Ack.refund.", "Transfer.alias.", "Transfer.v2.", "Recv:noop", "Ack:noop", ".new:err",
+            # directed tours in crossed / prefix-related identifier layouts
+            "layout:P", "tour:Timeout.escrow:ok", "tour:Timeout.mint:ok", "tour:Ack.refund.escrow:ok", "tour:Ack.refund.mint:ok",
+            "tour:Recv.release:ok", "tour:Recv.mint2:ok", "tour:Transfer.v2.fwd:ok", "tour:Transfer.alias.fwd:ok", "tour:Transfer.v1.fwd:ok"],
     "C31": ["Recv.release:ok", "Ack.refund.", "Timeout.escrow:ok", "BankSend:ok", ".fwd:ok"],
-    "C32": ["Ack.refund.", "Timeout.escrow:ok", "Timeout.mint:ok", "Ack.success:ok", "Ack:noop", "Timeout:noop", "Timeout:err"],
+    "C32": ["Ack.refund.", "Timeout.escrow:ok", "Timeout.mint:ok", "Ack.success:ok", "Ack:noop", "Timeout:noop", "Timeout:err",
+            "tour:Timeout.escrow:ok", "tour:Timeout.mint:ok", "tour:Ack.refund.escrow:ok", "tour:Ack.refund.mint:ok"],
     "C33": ["case:Recv.release:ok", "case:Transfer.v1.ret:ok", ".ret:ok", "walk:Recv.release:ok"],
     "C34": ["table:path.accepted", "table:path.rejected", "table:esc", "Recv.mint1:ok", "Recv.mint2:ok"],
     "C49": ["Transfer.badsigner.v1:err", "Transfer.badsigner.v2:err", "Transfer.badsigner.alias:err", "Recv.mint1:ok",
@@ -412,7 +476,12 @@ def run_family(tier, seed, binary=None):
             gen["cases"] = _reuse_cases(tier, seed, workdir)
         except Exception as e:  # noqa
             errors.append(e)
-    ts = [threading.Thread(target=g1), threading.Thread(target=g2)]
+    def g3():
+        try:
+            gen["tours"] = _reuse("tours_%s_%d" % (tier, seed), lambda: gen_tours(tier, seed, workdir))
+        except Exception as e:  # noqa
+            errors.append(e)
+    ts = [threading.Thread(target=g1), threading.Thread(target=g2), threading.Thread(target=g3)]
     for t in ts:
         t.start()
     if binary is None:
@@ -424,8 +493,9 @@ def run_family(tier, seed, binary=None):
         raise errors[0]
     walks = gen["walks"]
     batches, tabledir, counts = gen["cases"]
-    scheds = walks + batches + [PROBE, PROBE_SPOOF, PROBE_REFUND]
-    vk.log("generated %d walks, %d case batches (%s) in %.1fs" % (len(walks), len(batches), counts, time.time() - t0))
+    tours = gen["tours"]
+    scheds = walks + tours + batches + [PROBE, PROBE_SPOOF, PROBE_REFUND]
+    vk.log("generated %d walks, %d tours, %d case batches (%s) in %.1fs" % (len(walks), len(tours), len(batches), counts, time.time() - t0))
     tfiles = drive(binary, scheds, workdir, "main", sz["shards"], seed)
     table = drive_table(binary, tabledir, workdir, "main", seed, sz["variants"])
     vk.log("drove %d schedules and the function table (%.1fs)" % (len(scheds), time.time() - t0))
@@ -440,6 +510,8 @@ def run_family(tier, seed, binary=None):
     cov["table:path.accepted"] = accepted
     cov["table:path.rejected"] = rows - esc_rows - accepted
     cov["table:esc"] = esc_rows
+    for sc in scheds:
+        cov["layout:%s" % (sc.get("layout") or ("uniq" if sc.get("uniq") else "zero"))] += 1
     sigs["C34"] = sigs.get("C34", 0) + rows
     sanity = [f for f in fails + tfails if f[2] == "X"]
     if sanity:
